@@ -306,7 +306,14 @@ def _ordinal(lst, c):
     return sorted(x.bb for x in lst).index(c.bb)
 
 
-RULES = [r1_size_provenance, r2_bounded_writer, r3_batch, r4_oversize_reply]
+
+def rcfg_config_verbatim(ctx):
+    """the configured `max_response_body_size` reaches the ServerConfig unchanged (setter stores its argument, build()/Clone copy it)"""
+    from .common import config_field_integrity
+    config_field_integrity(ctx, "C08.CFG", "max_response_body_size")
+
+
+RULES = [r1_size_provenance, r2_bounded_writer, r3_batch, r4_oversize_reply, rcfg_config_verbatim]
 
 LEVEL_TEXT = (
     "Structural necessary conditions decided exactly from the type-checked program: provenance of every response-size "
